@@ -1005,6 +1005,10 @@ rrul_fill_yly(echs_instant_t *restrict tgt, size_t nti, rrulsp_t rr)
 			goto fin;
 		}
 	}
+	if (UNLIKELY(echs_nul_instant_p(protr))) {
+		/* the proto instant lies outside the rule's scale */
+		goto fin;
+	}
 
 	/* check if we're ymd only */
 	ymdp = !bi63_has_bits_p(rr->wk) &&
@@ -1194,6 +1198,10 @@ rrul_fill_mly(echs_instant_t *restrict tgt, size_t nti, rrulsp_t rr)
 		if (UNLIKELY((nti = rr->count) == 0UL)) {
 			goto fin;
 		}
+	}
+	if (UNLIKELY(echs_nul_instant_p(protr))) {
+		/* the proto instant lies outside the rule's scale */
+		goto fin;
 	}
 
 	if (UNLIKELY(!m || m > 12)) {
@@ -1394,6 +1402,10 @@ rrul_fill_wly(echs_instant_t *restrict tgt, size_t nti, rrulsp_t rr)
 			goto fin;
 		}
 	}
+	if (UNLIKELY(echs_nul_instant_p(protr))) {
+		/* the proto instant lies outside the rule's scale */
+		goto fin;
+	}
 
 	/* check ranges before filling */
 	if (UNLIKELY(!m || m > 12U || !d || d > 31U)) {
@@ -1566,6 +1578,10 @@ rrul_fill_dly(echs_instant_t *restrict tgt, size_t nti, rrulsp_t rr)
 		if (UNLIKELY((nti = rr->count) == 0UL)) {
 			goto fin;
 		}
+	}
+	if (UNLIKELY(echs_nul_instant_p(protr))) {
+		/* the proto instant lies outside the rule's scale */
+		goto fin;
 	}
 
 	/* check ranges before filling */
